@@ -124,6 +124,26 @@ def spec_pool(tier, primary="C08"):
         rand_execs=150 if tier == "quick" else 2000, rand_grid=rand, trace_timeout=1500)
 
 
+FS_PROGS = {
+    "mutex": ["lu.tu.lu", "tlu.lu", "jx.xw.N", "wn.nw.z"],
+    "timed": ["lfu.tzu.fwn", "fu.lu.fu", "lu.f.f"],
+    "recursive": ["llu.lu.tu", "ltuu.lu", "llluuu.tlu.lu"],
+    "recursive_timed": ["lflu.fu.lu", "llu.f.tu"],
+    "shared": ["lu.sr.ysr.tu", "sr.lu.sr", "lu.lu.sr.sr", "ysr.tlu.sr"],
+    "shared_timed": ["lu.gr.fu.sr", "fu.gr.lu", "sr.fu.gr.lu"],
+}
+
+
+def spec_fsync(tier):
+    grid = [{"lt": lt, "progs": p} for lt, ps in FS_PROGS.items() for p in ps]
+    return ConcSpec(
+        name="FiberSync", scenario="fs", grid=grid,
+        inv_props={}, primary="C18", mc_cfgs=[], paths_cfg=None, trace_cfg="FiberSync_Trace.cfg",
+        dfs_max=600, preempt=1,
+        rand_execs=250 if tier == "quick" else 3000, rand_grid=grid, tail_execs=0,
+        scen_keys=["lt", "progs"], trace_timeout=1500)
+
+
 # ------------------------------------------------------------------------------------------------ checks
 
 @check("C01")
@@ -180,6 +200,22 @@ def c08(rep, tier, seed):
     run_conc(rep, spec_pool(tier), tier, seed, {"C08"})
     rep.assumptions += ["real FairThreadPool on the FIBER mutex / condition variable / thread; lock acquisition order, notify "
                         "targets and the stop moment are controller choices; SoftStop is followed by Stop in the scenario"]
+
+
+@check("C18")
+def c18(rep, tier, seed):
+    """yaclib_std locks, condition variables, sleep, join, TLS under fibers keep the std contracts (FiberSync.tla, FiberLocks.tla)"""
+    wd = core.workdir("FiberLocks")
+    r = core.run_tlc(wd, "FiberLocks.tla", "FiberLocks_MC.cfg", workers=8, timeout=900, heap="8g")
+    rep.add_tlc(r, "FiberLocks: the fiber implementation of 6 lock types, 3 fibers x 8 programs, against the std contract")
+    if r.error and not r.violated and not r.deadlock:
+        raise MachineryError("TLC failed on FiberLocks:\n" + r.error)
+    for inv in list(r.violated) + (["Deadlock"] if r.deadlock else []):
+        rep.violation("%s/model/FiberLocks" % inv, "TLC: %s violated in FiberLocks.tla (the implementation model does not keep the "
+                      "std contract)" % inv, {"tlc_cfg": "FiberLocks_MC.cfg", "tlc_trace": r.out[r.out.find("Error:"):][:5000]})
+    run_conc(rep, spec_fsync(tier), tier, seed, {"C18"})
+    rep.assumptions += ["programs over one lock of each type, one condition variable, sleep, join, TLS; begin/end of every API "
+                        "call observed; every injection point of the fault layer is a controller-chosen scheduling point"]
 
 
 def all_conc_specs(tier):
